@@ -519,71 +519,94 @@ func (c *Ctx) orderFramingRule(fns []*ssa.Function) int {
 		}
 		n++
 		construct := "framing of " + addrExpr(sink)
-		fail := func(ins ssa.Instruction, why string) {
-			c.add("ORDER-FRAMING", fn, construct, report.Violated, c.P.Pos(ins.Pos()), why)
+		st, at, why := c.framingAt(fn, sink, start, endM, 0)
+		pos := c.P.Pos(start.Pos())
+		if at != nil {
+			pos = c.P.Pos(at.Pos())
 		}
-		ws, _ := sinkWritesOf(fn, sink)
-		bad := false
-		var end ssa.CallInstruction
-		for _, w := range ws {
-			if w.ins == start {
-				continue
-			}
-			if !instrDominates(start, w.ins) {
-				fail(w.ins, "a write to the output ("+w.callee+") is not dominated by the start-marker write: bytes can precede SOI/SOC")
-				bad = true
-				break
-			}
-			if w.what == "marker" && w.marker == endM {
-				end = w.ins
-			}
-		}
-		if bad {
-			continue
-		}
-		if end == nil {
-			if c.P.UsedAsValue(fn) {
-				// one step of a sequence that some other function drives (a table of emit functions, a
-				// callback): where the end marker is written relative to it is not decided here
-				c.add("ORDER-FRAMING", fn, construct, report.OutOfScope, c.P.Pos(start.Pos()), "the start marker is written by a function value (a step of a sequence driven elsewhere); the order of the steps is not decided")
-				continue
-			}
-			fail(start, "no end-marker write (EOI/EOC) on the same output in this function")
-			continue
-		}
-		for _, w := range ws {
-			if w.ins != end && instrDominates(end, w.ins) {
-				fail(w.ins, "a write to the output ("+w.callee+") follows the end marker")
-				bad = true
-				break
-			}
-		}
-		if bad {
-			continue
-		}
-		ei := errorResultIndex(fn)
-		for _, b := range fn.Blocks {
-			if len(b.Instrs) == 0 {
-				continue
-			}
-			ret, ok := b.Instrs[len(b.Instrs)-1].(*ssa.Return)
-			if !ok {
-				continue
-			}
-			if ei >= 0 && definitelyNonNilError(ret, ei) {
-				continue
-			}
-			if !instrDominates(end, ret) && !dominatesOnNilPaths(fn, end, ret, ei) {
-				fail(ret, "a return with a nil error is not dominated by the end-marker write: a stream without EOI/EOC can be returned")
-				bad = true
-				break
-			}
-		}
-		if !bad {
-			c.add("ORDER-FRAMING", fn, construct, report.Discharged, c.P.Pos(start.Pos()), "start marker dominates all writes; end marker dominates every nil-error return; nothing written after it")
-		}
+		c.add("ORDER-FRAMING", fn, construct, st, pos, why)
 	}
 	return n
+}
+
+// framingAt decides the framing of one output: `start` (the start-marker write, or a call of a
+// helper that writes it) must dominate every other write to sink in fn, an end-marker write must
+// dominate every nil-error return and be followed by nothing. A helper that opens the frame on a
+// sink it was given and never closes it (writeMainHeader(buf): SOC + segments) hands the obligation
+// to each of its callers, where the call stands for the start-marker write; callers that only
+// measure a local buffer (they produce no output) carry none.
+func (c *Ctx) framingAt(fn *ssa.Function, sink ssa.Value, start ssa.CallInstruction, endM int64, depth int) (report.Status, ssa.Instruction, string) {
+	ws, _ := sinkWritesOf(fn, sink)
+	var end ssa.CallInstruction
+	for _, w := range ws {
+		if w.ins == start {
+			continue
+		}
+		if !instrDominates(start, w.ins) {
+			return report.Violated, w.ins, "a write to the output (" + w.callee + ") is not dominated by the start-marker write: bytes can precede SOI/SOC"
+		}
+		if w.what == "marker" && w.marker == endM {
+			end = w.ins
+		}
+	}
+	if end == nil {
+		if c.P.UsedAsValue(fn) {
+			// one step of a sequence that some other function drives (a table of emit functions, a
+			// callback): where the end marker is written relative to it is not decided here
+			return report.OutOfScope, start, "the start marker is written by a function value (a step of a sequence driven elsewhere); the order of the steps is not decided"
+		}
+		if p, isParam := sink.(*ssa.Parameter); isParam && depth < 3 {
+			pi := paramIndex(fn, p)
+			sites, measuring := 0, 0
+			for _, g := range c.scopeFuncs() {
+				for _, b := range g.Blocks {
+					for _, ins := range b.Instrs {
+						call, ok := ins.(*ssa.Call)
+						if !ok || call.Call.StaticCallee() != fn || pi >= len(call.Call.Args) {
+							continue
+						}
+						if !producesOutput(g) {
+							measuring++
+							continue
+						}
+						sites++
+						if st, at, why := c.framingAt(g, unwrapIface(call.Call.Args[pi]), call, endM, depth+1); st != report.Discharged {
+							return st, at, why + " (frame opened by " + load.FuncName(fn) + ", called from " + load.FuncName(g) + ")"
+						}
+					}
+				}
+			}
+			if sites > 0 {
+				return report.Discharged, start, fmt.Sprintf("opens the frame on a sink it is given; each of its %d emitting call sites closes it: start dominates all writes, end marker dominates every nil-error return", sites)
+			}
+			if measuring > 0 {
+				return report.OutOfScope, start, fmt.Sprintf("opens the frame on a buffer it is given; its %d callers only measure a local buffer and emit nothing", measuring)
+			}
+		}
+		return report.Violated, start, "no end-marker write (EOI/EOC) on the same output in this function"
+	}
+	for _, w := range ws {
+		if w.ins != end && instrDominates(end, w.ins) {
+			return report.Violated, w.ins, "a write to the output (" + w.callee + ") follows the end marker"
+		}
+	}
+	ei := errorResultIndex(fn)
+	for _, b := range fn.Blocks {
+		if len(b.Instrs) == 0 {
+			continue
+		}
+		ret, ok := b.Instrs[len(b.Instrs)-1].(*ssa.Return)
+		if !ok {
+			continue
+		}
+		if ei >= 0 && definitelyNonNilError(ret, ei) {
+			continue
+		}
+		if !instrDominates(end, ret) && !dominatesOnNilPaths(fn, end, ret, ei) {
+			return report.Violated, ret, "a return with a nil error is not dominated by the end-marker write: a stream without EOI/EOC can be returned"
+		}
+	}
+	return report.Discharged, start, "start marker dominates all writes; end marker dominates every nil-error return; nothing written after it"
 }
 
 // dominatesOnNilPaths: instruction a lies on every path from the entry to return ret along which
